@@ -54,7 +54,7 @@ func (n *ParallelNode) ID() string {
 // error happened and the node needs to stop running. The coordinator collects
 // job results in the same order as the order of the dispatched jobs, so the
 // order of messages is maintained.
-func (n *ParallelNode) Run(ctx context.Context) error {
+func (n *ParallelNode) Run(ctx context.Context) (err error) {
 	// allow each worker to store an error in the channel
 	errs := make(chan error, n.Workers)
 	trigger, cleanup, err := n.base.Trigger(ctx, n.logger, errs)
